@@ -259,8 +259,17 @@ def dense_k(n, k):
 
 
 # ------------------------------------------------------------------ BUILD.json rendering
-def render_workspace(nodes, ws, trace=None, r=None, file_contents=None):
-    """One BUILD.json per package; every command appends its label to the trace file."""
+def respell(k, f):
+    """a non-canonical spelling of the package-relative input path f that resolves to the same file"""
+    d, _, b = f.rpartition("/")
+    forms = ["./" + f, "zz/../" + f, (d + "//" + b) if d else ("." + "//" + f), (d + "/./" + b) if d else "./././" + f, f]
+    return forms[k % len(forms)]
+
+
+def render_workspace(nodes, ws, trace=None, r=None, file_contents=None, spell=None):
+    """One BUILD.json per package; every command appends its label to the trace file.  spell (an Rng): literal inputs are written
+    to the BUILD file in a non-canonical spelling (./f, zz/../f, d//f, d/./f) two times in three -- the RESOLVED inputs, which is what
+    the nodes carry and what the model and the references see, are unchanged."""
     by_pkg = {}
     for nd in nodes:
         by_pkg.setdefault(nd["pkg"], []).append(nd)
@@ -287,7 +296,7 @@ def render_workspace(nodes, ws, trace=None, r=None, file_contents=None):
             if nd["bin"]:
                 t["bin_output"] = "bin_%s" % nd["name"]
             if nd["inputs"]:
-                t["inputs"] = nd["inputs"]
+                t["inputs"] = [respell(spell.below(5), i) if (spell is not None and spell.chance(2, 3)) else i for i in nd["inputs"]]
             targets.append(t)
         with open(os.path.join(ws, pkg, "BUILD.json"), "w") as f:
             json.dump({"targets": targets, "aliases": aliases}, f, indent=1)
